@@ -3,7 +3,7 @@ phases = {
 "C01": ("exhaustive depth 8 over A5 × periods 1..=5 × 7 indicators; RAND (1 in 8 on the default configurations, built through `Default`); 15 band regimes; recycled / identity-changed instances (a quarter of them changed before the first input)", "offline exact-rational recheck, plain release"),
 "C02": ("scalar (incl. 1e±150 and one-signed streams just below f64::MAX), bars (negated, crossed), exhaustive short sequences, soak 1.1·10⁶, periods up to usize::MAX; multipliers incl. 2.1, 0.1", "offline recheck, plain release"),
 "C03": ("scalar (units 1e-24…1e9), bars (7 styles incl. tick grid, rescaled units), exhaustive, soak, huge periods; exact neutral cases judged", "offline recheck, plain release"),
-"C04": ("one instance reset 255…65 537 times; enumeration depth 6 over {a, b, NaN, +inf, reset} and over {a, b, reset, serde-swap, clone-swap (original kept alive)}; random histories; non-finite and tick-grid continuations; huge periods", "plain release"),
+"C04": ("one instance reset 255…65 537 times; enumeration depth 6 over {a, b, NaN, +inf, reset} and over {a, b, reset, serde-swap, clone-swap (original kept alive)}; random histories; non-finite, tick-grid and crossed-bar continuations; huge periods", "plain release"),
 "C05": ("pause twins (1.1 s sleep); small-integer neighbours of other periods; zero-sign receivers; same values from different addresses; clone + clone_from (same / smaller / larger receivers) at every prefix of ≥ 24-input streams with resets; all merges; 16 threads × 30 rounds; migration", "process digests ×4 (two after decoy instances), TSan, Miri threads, plain release"),
 "C06": ("checkpoint at every prefix (periods 1..=8; decimal-grid streams; every other continuation opens with a tie); every restore also through a reader, through varint / big-endian options and in place into the advanced original; a failing checkpoint first; windows of 5 000 / 70 001; huge periods; DataItem", "plain release"),
 "C07": ("scalar and bars (tick grid, invalid bars, rescaled units, prices just below overflow), recycled and identity-changed instances incl. clone_from during warm-up, huge periods", "plain release"),
@@ -13,8 +13,8 @@ phases = {
 "C11": ("periods 0..=4096 exhaustive; tuples over 0..=24 exhaustive; 13 multipliers incl. ±inf, NaN; accessors/Display also on clone, restored and clone_from copies; defaults vs new(defaults) on 7 kinds of openings; boundary phase (2¹⁶+1 … usize::MAX) in its own process", "plain release"),
 "C12": ("periods 1..=64 × 25 programs; sampled to 4096; 2³¹…usize::MAX for the allocation-free ones; defaults / DataItem / ctor-error; foreign thread; 1.1·10⁶-call runs with halts; Display/Debug with format flags", "ASan, Miri ops (windows up to 40), plain release (thorough: memcheck, llvm-cov)"),
 "C13": ("soak runs of 2.2·10⁶ steps (MAD/CCI 2.2·10⁵) × 14 periods × 17 regimes × 3 band floors (seeded subset; saw-tooth × small periods and MIN/MAX on ulp noise / tick grid always); identity changes incl. clone_from", "plain release"),
-"C14": ("2^k, arbitrary factor, shift twins (a third recycled; re-rating jumps; runs of identical bars); calm phase (shifts to 2³³ × level); DataItem phase; MAX/−MIN mirror; huge units; long streams", "plain release"),
-"C15": ("8 composites vs hand-wired parts; rescaled / negated / near-overflow / mixed bar-and-scalar streams; recycled + identity-changed composite; composite panics reported", "plain release"),
+"C14": ("2^k, arbitrary factor, shift twins (a third recycled; re-rating jumps; runs of identical bars); calm phase (shifts to 2³³ × level); windows of 10⁵ and 2¹⁷+1 slots; DataItem phase; MAX/−MIN mirror; huge units; long streams", "plain release"),
+"C15": ("8 composites vs hand-wired parts; rescaled / negated / near-overflow / mixed bar-and-scalar streams; bars with exact zero closes; recycled + identity-changed composite; composite panics reported", "plain release"),
 "C16": ("neighbouring floats (8 anchors × 3⁴ × 5 volumes); 10⁵ lattice tuples × 32 subsets; 120 orders on 5⁵ tuples; garbage-first and repeated setters; call sequences ≤ 6; 2·10⁶ random; clone and clone_from; error equality", "plain release"),
 "C17": ("(indicator, period) pairs × prefix kinds (spikes, resets inside, non-finite ticks for window-only ones, 1 in 40 longer than 2¹⁶; monotone and almost-monotone suffixes after a history ending on the extreme); extension 2n+2; signed and zero-containing histories", "plain release"),
 "C18": ("14 stream shapes (incl. bad ticks, zeros, doubling halts, 5e14 volumes, NaN outages of 1 500 inputs) × periods {1,2,7,64,512,…} × extreme multipliers; reset / clone / serde / clone_from-rewind cycles × 300", "massif (2 lengths), memcheck, plain release"),
